@@ -117,12 +117,14 @@ PROPS["C15"] = dict(
     trusted=COMMON_TRUST,
 )
 PROPS["C16"] = dict(
-    units=[("kani", "headers"), ("kani", "pcapcodec"), ("verus", "pktcache"), ("verus", "propwire")] + [("verus", "hdrser.%s" % k) for k in ("tcp", "udp", "eth", "vlan", "ipv4", "ipv6")],
+    units=[("kani", "headers"), ("kani", "pcapcodec"), ("verus", "pktcache"), ("verus", "propwire"), ("verus", "dollar")] + [("verus", "hdrser.%s" % k) for k in ("tcp", "udp", "eth", "vlan", "ipv4", "ipv6")],
     explanation="For every header content of each layer, every getter equals the RFC field of the raw bytes, the parser fails exactly on truncated headers and the payload offset follows the header length fields. "
                 "Wiring (Verus, propwire: all 52 scalar arms, 7 payload arms and 8 default arms of exec_prop_*): reading a documented property returns the getter the documentation's table names for it; "
-                "payload is the captured buffer from the layer's payload offset, byte for byte, for every length; any other property is a runtime error with the instruction's line; the property names are the Display texts PACKET_PROP_MAP is built from (scans).",
-    not_covered=["address text (C18)", "get_inner's dispatch on EtherType / protocol / next header (read; the getters it dispatches to are under contract: each returns a layer of its own kind parsed at the parent's payload offset, or an error object)",
-                 "exec_prop_expr's dispatch on the object kind (8 one-line arms) and get_inner's recursion"],
+                "payload is the captured buffer from the layer's payload offset, byte for byte, for every length; any other property is a runtime error with the instruction's line; the property names are the Display texts PACKET_PROP_MAP is built from (scans). $n (Verus, dollar: get_inner verbatim, recursive, decreases depth): "
+                "the result is the object itself at depth 0, follows a cached layer as it is, otherwise descends through the layer getter selected by EtherType 0x8100/0x0800/0x86DD, protocol 17/6/41, next header 17/6, "
+                "is null for an unsupported layer and returns error objects and other non-layer objects unchanged; the dispatch constants are copied from the tree under check.",
+    not_covered=["address text (C18)", "that the dispatch fields the layer objects report (get_ethertype_raw, get_protocol_raw, get_next_header_raw) are the header fields (one-line accessors; the field values are the headers unit's)",
+                 "the Dollar arm's call of get_inner with the encoded depth (vmcore arm contract)"],
     assumptions=["TCP flags are the 12 bits after the data offset (reserved + control bits), so that serialisation stays lossless"],
     trusted=COMMON_TRUST,
 )
